@@ -20,7 +20,7 @@ ASSUMPTIONS = [
     'hash values are an uninterpreted function of (seed, bytes) with collisions allowed; table iteration orders nondeterministic',
     'the oracle is the cancellation rule of C02 applied to whole term contents: if the terms cancel to one content (or, with same-change accepted, all remaining sides agree) the merge must be resolved to exactly that content; otherwise the result is resolved or has the arity of the input; in every case each output term must be assembled from input bytes in order (checked as: every hunk chosen is one of the input slices)',
 ]
-BUDGET = {'quick': 280, 'thorough': 3000}
+BUDGET = {'quick': 900, 'thorough': 3600}
 F = 'lib/src/files.rs'
 
 def jobs(tier):
@@ -36,6 +36,7 @@ def jobs(tier):
     add([[L], [L], [L]], 'Word', 'Accept', 2, 6 ** 4)
     add([[L, L], [L, L], [L, L]], 'Line', 'Accept', 3, 6 ** 6)
     add([[L]] * 5, 'Line', 'Accept', 3, 6 ** 5)
+    if tier == 'quick': return [j for j in out if j['rung'] <= 1]
     if tier == 'thorough':
         add([[L], [L], [L]], 'Word', 'Keep', 4, 6 ** 4); add([[X], [L], [L]], 'Word', 'Accept', 4, 6 ** 4)
         add([[L, L], [L, L], [L, L]], 'Line', 'Keep', 5, 6 ** 6); add([[L]] * 5, 'Line', 'Keep', 5, 6 ** 5)
